@@ -280,6 +280,61 @@ static void c03_attached_phase(int G, int k, bool ortho, double buf, int os) {
     });
 }
 
+
+// ---- C03, side pins + end-segment nudging -------------------------------------------------------
+// Two shapes joined pin-to-pin (a pin at the middle of a side, pointing outward) with a third rectangle as obstacle, every scene of
+// three rectangles at least one cell apart, every ordered choice of the two attached shapes and of the two sides, under the option
+// sets that let nudging move END segments (nudgeOrthogonalSegmentsConnectedToShapes) and merge/align collinear segments.  With
+// end-segment nudging the ends may slide along the shape they are attached to, so the end clause is "on or in the attached
+// shape"; otherwise it is "at the pin".  No segment may meet the interior of the third shape.
+struct NOpt { const char *name; bool es, tc, un; };
+static const NOpt NOPTS[] = { {"default nudging", false, false, true}, {"end-segment nudging", true, false, true}, {"end-segment nudging + touching colinear", true, true, true},
+                              {"end-segment nudging + touching colinear, no unifying step", true, true, false}, {"touching colinear only", false, true, true} };
+static void c03_pinpair_phase(int G, int no, double buf) {
+    vector<Poly> alpha = shape_alphabet(G, false); const NOpt &O = NOPTS[no];
+    ctx.phase(mcx::fmt("C03 orthogonal G=%d three rectangles >=1 cell apart, connector between side pins of two of them, buffer=%g, %s", G, buf, O.name));
+    for_scenes(alpha, 3, 1, true, [&](const vector<Poly> &sc) {
+        if (!ctx.next()) return;
+        ctx.count("states"); ctx.sample("pin-to-pin " + scene_str(sc), 1);
+        vector<Poly> scS = scaled(sc); vector<R> r2; for (auto &p : sc) { R q = toR(p); r2.push_back({2 * q.x0, 2 * q.y0, 2 * q.x1, 2 * q.y1}); }
+        OrthoGrid og(2 * G, r2);
+        // side k: 0 = right (+x), 1 = bottom (+y, libavoid's "down"), 2 = left, 3 = top
+        auto pinpos2 = [&](int sh, int side) { R q = toR(sc[sh]); return side == 0 ? P{2 * q.x1, q.y0 + q.y1} : side == 1 ? P{q.x0 + q.x1, 2 * q.y1} : side == 2 ? P{2 * q.x0, q.y0 + q.y1} : P{q.x0 + q.x1, 2 * q.y0}; };
+        const double xo[4] = {Avoid::ATTACH_POS_RIGHT, Avoid::ATTACH_POS_CENTRE, Avoid::ATTACH_POS_LEFT, Avoid::ATTACH_POS_CENTRE}, yo[4] = {Avoid::ATTACH_POS_CENTRE, Avoid::ATTACH_POS_BOTTOM, Avoid::ATTACH_POS_CENTRE, Avoid::ATTACH_POS_TOP};
+        const unsigned dirf[4] = {Avoid::ConnDirRight, Avoid::ConnDirDown, Avoid::ConnDirLeft, Avoid::ConnDirUp};
+        for (int a = 0; a < 3; a++) for (int b = 0; b < 3; b++) if (a != b) for (int sa = 0; sa < 4; sa++) for (int sb = 0; sb < 4; sb++) {
+            int c3 = 3 - a - b;
+            ctx.count("transitions"); ctx.count("evaluations");
+            string desc = mcx::fmt("orthogonal pin-to-pin buf=%g [%s] scene ", buf, O.name) + scene_str(sc) + mcx::fmt(" conn shape#%d side %d -> shape#%d side %d", a, sa, b, sb);
+            try {
+                Avoid::Router *r = mk_router(true, 10, buf, {});
+                r->setRoutingOption(Avoid::nudgeOrthogonalSegmentsConnectedToShapes, O.es); r->setRoutingOption(Avoid::nudgeOrthogonalTouchingColinearSegments, O.tc);
+                r->setRoutingOption(Avoid::performUnifyingNudgingPreprocessingStep, O.un);
+                vector<Avoid::ShapeRef *> shs; for (auto &sh : sc) { Avoid::Polygon pg(sh.v.size()); for (size_t q = 0; q < sh.v.size(); q++) pg.ps[q] = Avoid::Point(sh.v[q].x * S, sh.v[q].y * S); shs.push_back(new Avoid::ShapeRef(r, pg)); }
+                new Avoid::ShapeConnectionPin(shs[a], 1, xo[sa], yo[sa], true, 0.0, dirf[sa]); new Avoid::ShapeConnectionPin(shs[b], 2, xo[sb], yo[sb], true, 0.0, dirf[sb]);
+                Avoid::ConnRef *c = new Avoid::ConnRef(r, Avoid::ConnEnd(shs[a], 1), Avoid::ConnEnd(shs[b], 2));
+                r->processTransaction();
+                Avoid::PolyLine rt = c->displayRoute(); delete r;
+                P s2 = pinpos2(a, sa), t2 = pinpos2(b, sb);
+                double pathc = og.best(s2.x, s2.y, t2.x, t2.y, 0, 1 << sa, 1 << ((sb + 2) % 4), 4);
+                if (pathc > 1e17) { ctx.count("no_free_path"); continue; }
+                ctx.count("nontrivial");
+                if (rt.size() < 2) { ctx.violation("route_too_short", {"pinpair"}, desc, route_str(rt)); continue; }
+                auto onOrIn = [&](const Avoid::Point &q, int sh) { R e = toR(sc[sh]); return q.x >= e.x0 * S - 1e-9 && q.x <= e.x1 * S + 1e-9 && q.y >= e.y0 * S - 1e-9 && q.y <= e.y1 * S + 1e-9; };
+                bool endsOk = O.es ? (onOrIn(rt.ps[0], a) && onOrIn(rt.ps[rt.size() - 1], b))
+                                   : (rt.ps[0].x == s2.x * S / 2.0 && rt.ps[0].y == s2.y * S / 2.0 && rt.ps[rt.size() - 1].x == t2.x * S / 2.0 && rt.ps[rt.size() - 1].y == t2.y * S / 2.0);
+                if (!endsOk) ctx.violation("endpoints_moved", {"pinpair"}, desc, route_str(rt));
+                bool bad = false;
+                for (size_t q = 1; q < rt.size() && !bad; q++) if (hitsInteriorD(scS[c3], rt.ps[q - 1].x, rt.ps[q - 1].y, rt.ps[q].x, rt.ps[q].y, 1e-6)) { bad = true; ctx.violation("through_shape", {"pinpair"}, desc, route_str(rt)); }
+                if (bad) continue;
+                for (size_t q = 1; q < rt.size(); q++) if (rt.ps[q].x != rt.ps[q - 1].x && rt.ps[q].y != rt.ps[q - 1].y) { ctx.violation("not_orthogonal", {"pinpair"}, desc, route_str(rt)); break; }
+                ctx.cls("pinpair_points", mcx::fmt("%zu", rt.size()));
+            } catch (vpsc::CriticalFailure &f) { ctx.library_abort(f.what(), desc); }
+        }
+        ctx.done_case();
+    });
+}
+
 // ---- C04 ------------------------------------------------------------------------------
 static void c04_phase(int G, int k, double penCells, bool tris) {
     vector<Poly> alpha = shape_alphabet(G, tris);
@@ -435,6 +490,9 @@ int main(int argc, char **argv) {
         c03_orders_phase(3, 2, 1); c03_orders_phase(3, 3, 3);
         for (int os = 0; os < 4; os++) for (int ortho = 0; ortho < 2; ortho++) { c03_attached_phase(3, 2, ortho, 0, os); if (os == 0 || T) c03_attached_phase(3, 3, ortho, 0, os); }
         c03_attached_phase(3, 2, false, 2, 0); c03_attached_phase(3, 2, true, 2, 0); c03_attached_phase(3, 2, true, 2, 1);
+        for (int no = 0; no < 5; no++) c03_pinpair_phase(4, no, 0);
+        c03_pinpair_phase(4, 2, 4);
+        if (T) { for (int no = 0; no < 5; no++) c03_pinpair_phase(5, no, 0); c03_pinpair_phase(5, 2, 4); }
         if (T) { c03_orders_phase(3, 3, 1); c03_orders_phase(4, 2, 1); c03_phase(4, 2, true, 0, false); c03_phase(4, 2, false, 0, false); c03_phase(3, 3, true, 0, false); c03_phase(3, 3, false, 0, false); c03_phase(4, 2, true, 2, false); }
     } else if (PROP == "C04") {
         for (double pen : {0.0, 0.5, 3.0}) { c04_phase(4, 1, pen, true); c04_phase(T ? 4 : 3, 2, pen, true); c04_phase(4, 2, pen, false); }
